@@ -130,14 +130,14 @@ theorem reported_true_partial (t : Ty) (lh lm : Layout) (hw : wf t = true)
   · cases h
 
 /-- **Soundness (partial).**  For every list of element types: if `check_layout` accepts, then every
-    type of the list that (a) has no inner tail padding under either rule and (b) is laid out without
+    type of the list that (a) has no inner tail padding under the Metal rules and (b) is laid out without
     any padding by HLSL structured-buffer packing has the same total size and the same offset for
     every field, recursively, under both rules.
     Partial: (a) and (b) are needed on the pinned tree — `check_unsound_nested`/`check_unsound_array`
     violate (a), `check_unsound_offsets` violates (b). -/
 theorem check_sound_partial (ts : List Ty) (h : checkAll ts = .ok) (t : Ty) (ht : t ∈ ts)
-    (hw : wf t = true) (hh : noInnerTailPad .hlsl t = true) (hm : noInnerTailPad .metal t = true)
-    (hd : hlslDense t) : Agree t := by
+    (hw : wf t = true) (hm : noInnerTailPad .metal t = true) (hd : hlslDense t) : Agree t := by
+  have hh : noInnerTailPad .hlsl t = true := noInner_of_closed _ t (dense_closed _ t hw hd)
   have hc := checkFrom_ok ts 0 h t ht
   have := checkOne_spec hw hh hm hc
   have hs : size .hlsl t = size .metal t := by
@@ -146,10 +146,31 @@ theorem check_sound_partial (ts : List Ty) (h : checkAll ts = .ok) (t : Ty) (ht 
     · simp only [ne_eq, e, not_false_eq_true, if_true] at this; cases this
   exact ⟨hs, dense_agree t hw hd (by rw [← hs]; exact hd)⟩
 
+/-- `Agree` is what the property says in terms of the two reference calculators: the same total size
+    and the same absolute byte offset for every field, recursively (every array element included) -/
+theorem agree_same_size_and_fields (t : Ty) (hw : wf t = true) (h : Agree t) :
+    ∃ rh rm, hlslSB t = some rh ∧ metal t = some rm ∧ rh.size = rm.size ∧ rh.fields = rm.fields := by
+  refine ⟨⟨size .hlsl t, align .hlsl t, fieldsAt .hlsl t 0⟩, ⟨size .metal t, align .metal t, fieldsAt .metal t 0⟩,
+    by simp only [hlslSB, ref, hw, if_true], by simp only [metal, ref, hw, if_true], h.1, ?_⟩
+  exact agree_fields t h.2 0
+
 /-- without vectors (scalars, enums, arrays and structs of them, to any depth) the two rule sets give
     the same layout, whatever the checker says -/
 theorem vector_free_agree (t : Ty) (hv : vectorFree t = true) : Agree t :=
   ⟨(vectorFree_same t hv).2.1, (vectorFree_same t hv).2.2⟩
+
+/-- **No panic, no "unknown size" on the grid.**  For every type that has a reference layout and whose
+    two reference sizes fit in `u32`, `check_layout`'s loop body reaches the comparison: none of the
+    overflow / `unwrap` / `panic!` sites of `get_type_layout` fires and neither call returns `None`. -/
+theorem check_total (t : Ty) (hw : wf t = true) (hh : size .hlsl t ≤ u32Max)
+    (hm : size .metal t ≤ u32Max) : ∃ r, checkOne t = .ok r :=
+  checkOne_total t hw hh hm
+
+/-- the computed size never exceeds the reference size and the alignment is always the reference
+    alignment — also on the types where the size is wrong (the defect only ever *under*-estimates) -/
+theorem get_le_spec (m : Mode) (t : Ty) (hw : wf t = true) (hb : size m t ≤ u32Max) :
+    ∃ l, get m t = .ok l ∧ l.size ≤ size m t ∧ l.align = align m t :=
+  get_total m t hw hb
 
 /-! ### non-vacuity: a depth-3 type with arrays and vectors satisfies every hypothesis of
     `check_sound_partial` and is accepted -/
@@ -159,7 +180,7 @@ private def f2 : Ty := .vec .Float32 2
 private def deep : Ty :=
   S [f4, S [f2, f2, S [.vec .Float64 2, d, .enum .Int32, f, f2, d]], .arr f4 3, .arr (S [d, d]) 2, d, d]
 
-example : wf deep = true ∧ noInnerTailPad .hlsl deep = true ∧ noInnerTailPad .metal deep = true ∧
+example : wf deep = true ∧ noInnerTailPad .metal deep = true ∧
     hlslDense deep ∧ checkAll [f, deep] = .ok := by unfold hlslDense; decide
 
 /-- and a rejected one satisfies the hypotheses of `reported_true_partial` -/
